@@ -83,4 +83,16 @@ ApplyClauses(P, ins, env, o) ==
     \cup (IF settled /\ \E x \in got.dir : x \notin want.dir /\ \E y \in want.dir : y[1] = x[1]
             THEN {"dir-outputs-equal-expanded-inputs"} ELSE {})
     \cup (IF o.oks >= 1 /\ ObservedOut(o.atok) # want THEN {"outputs-in-place-when-reload-requested"} ELSE {})
+
+(* ======================= algorithm level ======================= *)
+(* Summary of what apply() decides (the step-wise model with the three hashes, lastCfgDirFiles and    *)
+(* forceReload is ReloaderMC, which also proves this summary equal to it): a reload is requested iff  *)
+(* forceReload is set, nothing was reloaded yet, or some hash differs from the one stored at the      *)
+(* last successful reload.  Used by the trace spec for model conformance only.                        *)
+AInit == [have |-> FALSE, snap |-> PInit.lastOK, force |-> FALSE]
+ATrigger(A, snap) == A.force \/ ~A.have \/ A.snap # snap
+ANext(A, snap, calls, oks) ==
+    IF oks >= 1 THEN [have |-> TRUE, snap |-> snap, force |-> FALSE]
+    ELSE IF calls >= 1 THEN [A EXCEPT !.force = TRUE]
+    ELSE A
 =============================================================================
